@@ -28,7 +28,7 @@ def build(ex, strict_poolerror=False):
     pool.install(ex)
     cons = pool.build_closure_contracts(ex)
     run = pool.build_run_contract(ex, strict_poolerror)
-    return [(cons[n], None) for n in ('get_next_idle_worker', 'try_enqueue', 'handle_death', 'handle_new_result', 'first_enqueue')] + [(run, None)]
+    return [(cons[n], None) for n in ('get_next_idle_worker', 'try_enqueue', 'handle_death', 'handle_new_result', 'first_enqueue', 'first_enqueue0')] + [(run, None)]
 
 
 # ------------------------------------------------------------------------------ replay on the real code
